@@ -724,15 +724,17 @@ protected:
             const XalanDOMChar  theChar = chars[i];
 
             if (theChar == XalanUnicode::charRightSquareBracket &&
-                i - length > 2 &&
+                length - i > 2 &&
                 XalanUnicode::charRightSquareBracket == chars[i + 1] &&
                 XalanUnicode::charGreaterThanSign == chars[i + 2])
             {
                 if (outsideCDATA == true)
                 {
+                    // The previous character was written outside
+                    // of a CDATA section, so open a new one first.
                     m_writer.write(
-                        m_constants.s_cdataCloseString,
-                        m_constants.s_cdataCloseStringLength);
+                        m_constants.s_cdataOpenString,
+                        m_constants.s_cdataOpenStringLength);
                 }
 
                 m_writer.write(value_type(XalanUnicode::charRightSquareBracket));
@@ -774,12 +776,9 @@ protected:
             ++i;
         }
 
-        if(outsideCDATA == true)
-        {
-            m_writer.write(
-                m_constants.s_cdataOpenString,
-                m_constants.s_cdataOpenStringLength);
-        }
+        // If outsideCDATA is true here, the last character was written
+        // outside of a CDATA section and no section is open; the caller
+        // then does not write a closing delimiter.
     }
 
 
